@@ -144,7 +144,7 @@ PURE_EXTERNALS = {
 
 class SX:
     def __init__(self, mod, handler_arg=0, emitters=(), inline=(), fork_selects=True, bit_args=(),
-                 cstr_args=(), fmt_base=None, join_at=None):
+                 cstr_args=(), fmt_base=None, join_at=None, wide_syms=(), nonneg_args=None):
         self.mod = mod
         self.handler_arg = handler_arg
         self.emitters = set(emitters)        # defined callees summarised as "emits ret characters"
@@ -154,6 +154,11 @@ class SX:
         self.cstr = dict(cstr_args)          # pointer base -> symbol of the string length
         self.fmt_base = fmt_base             # base whose bytes are read-only: loads named by location
         self.join_at = join_at               # merge (hull) the states at a block when there are more than this
+        self.wide = set(wide_syms)           # 64-bit symbols: trunc below 64 bits yields an unknown value
+        self.nonneg_args = nonneg_args or {} # emitter callee -> argument positions that must be >= 0 at the call
+        self.alloca_size = {}
+        self.digit_probes = []               # (fn name, stored value, remainder value, state) from the digit loop body
+        self.store_log = None
         self.joins = 0
         self.obligs = {}
         self.recording = 0
@@ -600,6 +605,11 @@ class SX:
             if callee in self.emitters:
                 r = self.opq_lin('ret', fn.name, i.id)
                 st.cons.add_le(0, r)
+                for pos in self.nonneg_args.get(callee, ()):
+                    a = args[pos] if pos < len(args) else None
+                    ok = isinstance(a, Lin) and st.cons.entails_le(0, a)
+                    self.oblige('arg-nonneg', fn, '%s:arg%d' % (callee, pos), ok, i.where(),
+                                None if ok else 'argument %d of %s (%r) is not proven non-negative at this call' % (pos, callee, a))
                 st.events = st.events + (('call', i.id, callee, tuple(vkey(a) for a in args)),)
                 self.emit(st, ('call', callee, r), r)
                 st.env[key] = r
@@ -655,6 +665,7 @@ class SX:
         key = ('i', i.id)
         if op == 'alloca':
             st.env[key] = P(('a', fn.name, i.id))
+            self.alloca_size[('a', fn.name, i.id)] = i.d.get('alloc_ty', {}).get('size')
             return [st]
         if op in ('call', 'invoke', 'load', 'store', 'getelementptr', 'icmp', 'ptrtoint') and \
                 any(o.k in ('inst', 'arg') and isinstance(st.env.get(o.key()), Sel) for o in i.ops):
@@ -677,6 +688,8 @@ class SX:
         if op == 'store':
             v = self.val(st, i.ops[0], fn)
             p = self.val(st, i.ops[1], fn)
+            if self.store_log is not None:
+                self.store_log.append((i, p, v, st))
             if isinstance(p, P) and p.base[0] == 'a':
                 sz = i.d.get('store_size', 0)
                 if p.off.is_const():
@@ -703,6 +716,8 @@ class SX:
         if op in ('zext', 'sext', 'trunc'):
             a = self.val(st, i.ops[0], fn)
             if isinstance(a, Lin):
+                if op == 'trunc' and i.bits < 64 and any(sy in self.wide for sy in a.t):
+                    a = self.opq_lin('trunc', i.bits, vkey(a))
                 st.env[key] = a
                 return [st]
             if isinstance(a, tuple):
@@ -1329,6 +1344,7 @@ class SX:
                         s.env[('i', info['ptr'].id)] = inits.get(info['ptr'].id)
                     out.append((s, H, info['exit']))
             return out
+        name = self.loop_key(fn, L, name)
         ok = st.cons.entails_le(0, c0)
         self.oblige('count-nonneg', fn, name, ok, info['call'].where(),
                     None if ok else 'the emission loop counts %s down to zero; its initial value %r can be negative here '
@@ -1338,6 +1354,21 @@ class SX:
             if not self.feasible(st, set(c0.t.keys())):
                 return []
         return self.finish_countdown(fn, info, st, c0, inits)
+
+    def loop_key(self, fn, L, name):
+        """stable-ish identity of an emission loop: counter variable name + ordinal among the loops counting the same variable"""
+        tab = getattr(fn, '_sx_loopkeys', None)
+        if tab is None:
+            tab = fn._sx_loopkeys = {}
+            seen = {}
+            order = {b: n for n, b in enumerate(fn.rpo)}
+            for L2 in sorted(fn.loops, key=lambda l: order.get(l['header'], 0)):
+                inf = self.classify(fn, L2)
+                if inf['kind'] == 'countdown':
+                    nm = fn.var_name(V({'k': 'inst', 'id': inf['cnt'].id})) or inf['cnt'].name
+                    seen[nm] = seen.get(nm, 0) + 1
+                    tab[L2['header'].name] = '%s#%d' % (nm, seen[nm])
+        return tab.get(L['header'].name, name)
 
     def finish_countdown(self, fn, info, st, c0, inits):
         H = info['cnt'].block
@@ -1352,6 +1383,12 @@ class SX:
         if info['ptr'] is not None:
             p0 = inits.get(info['ptr'].id)
             st.env[('i', info['ptr'].id)] = P(p0.base, p0.off + c0) if isinstance(p0, P) else None
+            if isinstance(p0, P) and p0.base[0] == 'a' and self.alloca_size.get(p0.base) is not None:
+                ok = st.cons.entails_le(0, p0.off) and st.cons.entails_le(p0.off + c0, self.alloca_size[p0.base])
+                nm = fn.var_name(V({'k': 'inst', 'id': info['cnt'].id})) or info['cnt'].name
+                self.oblige('emit-read', fn, self.loop_key(fn, {'header': H}, nm), ok, info['call'].where(),
+                            None if ok else 'the emission loop reads %r bytes at offset %r of a %d-byte local buffer'
+                            % (c0, p0.off, self.alloca_size[p0.base]))
         self.emit(st, seg, c0)
         return [(st, H, info['exit'])]
 
@@ -1384,6 +1421,7 @@ class SX:
                 else:
                     s.cons.add_le(1, nd)
                 out.append(s)
+        self.probe_digits(fn, L, info, st, frm, p0, d)
         res = []
         for s in out:
             ok = s.cons.entails_le(0, p0.off - nd)
@@ -1396,6 +1434,29 @@ class SX:
             s.notes = s.notes + (('digits', fn.name, vkey(p0), vkey(nd), vkey(u0), vkey(d)),)
             res.append((s, info['exit_from'], info['exit']))
         return res
+
+    def probe_digits(self, fn, L, info, st, frm, p0, d):
+        """one symbolic pass through the body of the digit loop: which character is stored for which remainder"""
+        if self.recording:
+            return
+        h = st.fork()
+        for ph in [i for i in L['header'].insts if i.op == 'phi']:
+            if ph.id == info['u'].id:
+                h.env[('i', ph.id)] = Lin.sym(self.opq('uprobe', fn.name))
+            elif ph.id == info['p'].id:
+                h.env[('i', ph.id)] = p0
+            else:
+                h.env[('i', ph.id)] = self.top(ph, fn)
+        log, self.store_log = self.store_log, []
+        self.recording += 1
+        try:
+            self.run_region(fn, L, [(h, frm)], [])
+            for (i, p, v, s) in self.store_log:
+                if i.id == info['store'].id:
+                    self.digit_probes.append((fn.name, v, s.env.get(('i', info['rem'].id)), s, vkey(d)))
+        finally:
+            self.recording -= 1
+            self.store_log = log
 
     def run_generic(self, fn, L, info, st, frm, rets):
         H = L['header']
